@@ -208,7 +208,7 @@ fn asn1_run(p: &mut Prng, w: &mut World, i: usize) {
     let script = if i % 2 == 0 && !table.is_empty() {
         let (cls, k) = &table[(i / 2) % table.len()];
         w.bump(&format!("probe.asn1.rare-k.{cls}"));
-        json!({"c":[hex::encode(k)],"f":p.next_u64()})
+        json!({"c":[hex::encode(k), hex::encode(k), hex::encode(k), hex::encode(k)],"f":p.next_u64()})
     } else {
         rng_json(&uniform_script(p, 1))
     };
